@@ -115,6 +115,7 @@ pub struct Outcome {
     pub trace_hash: u64,
     /// hash over all API results (determinism self-test)
     pub result_hash: u64,
+    pub sync_events: Vec<(u32, KOp, String, u64, u64)>,
 }
 
 pub struct MapRt {
@@ -128,6 +129,7 @@ pub struct MapRt {
     pub peak_live_key: [u64; 16],
     pub peak_live_val: [u64; 16],
     pub marks: Vec<(u64, u64)>,
+    pub last_imgs: Option<[Img; 3]>,
 }
 
 pub struct IterRt {
@@ -153,6 +155,9 @@ pub struct World<'a> {
     pub result_hash: u64,
     pub faulted: bool,
     pub only_updates: bool,
+    pub in_reopen: bool,
+    /// kernel events of the flush/sync steps (C16 derives its fault points from them)
+    pub sync_events: Vec<(u32, KOp, String, u64, u64)>,
 }
 
 pub type StepResult = Result<(), Stop>;
@@ -203,6 +208,7 @@ impl<'a> World<'a> {
                     peak_live_key: [0; 16],
                     peak_live_val: [0; 16],
                     marks: Vec::new(),
+                    last_imgs: None,
                 })
                 .collect(),
             snaps: BTreeMap::new(),
@@ -211,6 +217,8 @@ impl<'a> World<'a> {
             result_hash: 0x9e37_79b9_7f4a_7c15,
             faulted: false,
             only_updates: false,
+            in_reopen: false,
+            sync_events: Vec::new(),
         }
     }
 
@@ -224,6 +232,12 @@ impl<'a> World<'a> {
     }
     pub fn images(&self, m: usize) -> Option<[Img; 3]> {
         let p = self.file_paths(m);
+        if kernel::with(|k| k.mode) == kernel::Mode::Trace {
+            let a = crate::golden::img_from_real_file(&p[0]).ok()?;
+            let b = crate::golden::img_from_real_file(&p[1]).ok()?;
+            let c = crate::golden::img_from_real_file(&p[2]).ok()?;
+            return Some([a, b, c]);
+        }
         kernel::with(|k| {
             let a = k.file(&p[0])?.written.clone();
             let b = k.file(&p[1])?.written.clone();
@@ -252,7 +266,12 @@ impl<'a> World<'a> {
             Err(_) => {
                 let (loc, msg) = take_panic();
                 let detail = format!("{what} panicked at {loc}: {msg}");
-                if self.ep.checks.panics {
+                let c = &self.ep.checks;
+                let covered = c.panics
+                    || (c.iter && (what.starts_with("iter") || what == "size_hint"))
+                    || (c.stats && what == "stats")
+                    || (self.in_reopen && c.reopen_must_succeed);
+                if covered {
                     Err(viol("panic", format!("{}:{}", loc.split(':').next().unwrap_or("?"), normalise(&msg)), self.step_no, detail))
                 } else {
                     Err(Stop::Inconclusive(detail))
@@ -269,7 +288,7 @@ impl<'a> World<'a> {
                 if self.fault_active() {
                     self.faulted = true;
                     Err(Stop::Inconclusive(format!("{what} failed under an injected fault: {e}")))
-                } else if self.ep.checks.panics {
+                } else if self.ep.checks.panics || (self.in_reopen && self.ep.checks.reopen_must_succeed) {
                     Err(viol("error", format!("{what}:{:?}", e.kind()), self.step_no, format!("{what} returned Err({e}) on a healthy filesystem")))
                 } else {
                     Err(Stop::Inconclusive(format!("{what} returned Err({e})")))
@@ -409,6 +428,14 @@ impl<'a> World<'a> {
                 self.drop_iters_of(m);
                 let kt = hd.ktype();
                 let vb = v.bytes();
+                if self.ep.checks.typed {
+                    if let Some((bv, br, same)) = self.call("key-conversion", |_| hd.roundtrip(k))? {
+                        if bv != *k || br != *k || !same {
+                            return Err(viol("typed", "roundtrip".into(), self.step_no, format!("integer key {} converts to a key and back as {} (by value) / {} (by reference); by-value and by-reference keys equal: {same}", k.short(), bv.short(), br.short())));
+                        }
+                        self.stats.probe("typed-roundtrip");
+                    }
+                }
                 let r = self.call("put", |_| hd.put(k, &vb, *mode))?;
                 self.ok("put", r)?;
                 self.maps[m].model.insert(k.stored(kt), (k.clone(), vb));
@@ -768,7 +795,7 @@ impl<'a> World<'a> {
                 self.stats.probe("file-swapped");
                 Ok(())
             }
-            Step::ForeignOpen { m, as_kt, expect_refused } => self.foreign_open(*m as usize, *as_kt, *expect_refused),
+            Step::ForeignOpen { m, as_kt, expect_refused, swapped_from } => self.foreign_open(*m as usize, *as_kt, *expect_refused, *swapped_from),
             Step::Nop => Ok(()),
         }
     }
@@ -823,11 +850,16 @@ impl<'a> World<'a> {
         if xproc && self.env.allow_xproc {
             crate::xproc::audit_closed_images(self)?;
         }
-        self.open_initial()?;
+        self.in_reopen = true;
+        let r = self.open_initial();
+        self.in_reopen = false;
+        r?;
         self.stats.probe("reopen");
         if self.ep.checks.model {
             for m in 0..self.maps.len() {
-                self.audit_map(m)?;
+                if let Err(Stop::Violation(v)) = self.audit_map(m) {
+                    return Err(viol("reopen", v.signature.clone(), self.step_no, format!("after dropping every handle and reopening: {}", v.detail)));
+                }
             }
         }
         Ok(())
@@ -1076,8 +1108,9 @@ impl<'a> World<'a> {
             }
         }
         // one full traversal
-        let saved = self.ep.checks.iter;
-        let _ = saved;
+        if !self.ep.checks.audit_traverse {
+            return Ok(());
+        }
         let mut it = self.call("iter_new", |_| hd.iter(Flavour::Iter))?;
         let mut items = Vec::new();
         loop {
@@ -1101,7 +1134,7 @@ impl<'a> World<'a> {
 
     // ---------------- foreign open (C13) ----------------
 
-    fn foreign_open(&mut self, m: usize, as_kt: KType, expect_refused: bool) -> StepResult {
+    fn foreign_open(&mut self, m: usize, as_kt: KType, expect_refused: bool, swapped_from: Option<KType>) -> StepResult {
         if m >= self.maps.len() {
             return Ok(());
         }
@@ -1138,10 +1171,17 @@ impl<'a> World<'a> {
         // whatever happened, no descriptor may stay open for the comparison
         let _ = self.close_all();
         let after = self.images(m);
-        let pair = format!("{}->{}", spec.kt.name(), as_kt.name());
+        let pair = match swapped_from {
+            Some(o) => format!("file-of-{}-in-{}-map", o.name(), as_kt.name()),
+            None => format!("{}->{}", spec.kt.name(), as_kt.name()),
+        };
         if expect_refused {
             if accepted {
-                return Err(viol("foreign-open", format!("accepted:{pair}"), self.step_no, format!("files of map '{}' created as {} were opened as {}: {outcome}", spec.name, spec.kt.name(), as_kt.name())));
+                let what = match swapped_from {
+                    Some(o) => format!("a map created as {} with one file taken from a map created as {} was opened as {}", spec.kt.name(), o.name(), as_kt.name()),
+                    None => format!("files of map '{}' created as {} were opened as {}", spec.name, spec.kt.name(), as_kt.name()),
+                };
+                return Err(viol("foreign-open", format!("accepted:{pair}"), self.step_no, format!("{what}: {outcome}")));
             }
             self.stats.probe("foreign-open-refused");
             if before != after || !wrote.is_empty() {
